@@ -85,7 +85,7 @@ Fixpoint rh_mism (r : response) (names : list bytes) (obs : list (bytes * bytes)
 Definition resp_mism (c : respcase) (i : N) : list (N * N * N) :=
   (if p_status c =? r_status (s_resp c) then [] else [(6, i, 0)%N]) ++
   rh_mism (s_resp c) (s_names c) (p_headers c) i 0%N ++
-  (if ck_eqb (p_cookies c) (sort_ck (r_cookies (s_resp c))) then [] else [(8, i, 0)%N]).
+  (if ck_eqb (p_cookies c) (sort_ck (reported_cookies (s_resp c))) then [] else [(8, i, 0)%N]).
 
 (* ---------- kind 9: cancellation / deadline on a slow response *)
 Definition cancase := (Z * Z * bool)%type.   (* cancel after ms, response after ms, returned early? *)
@@ -98,9 +98,44 @@ Fixpoint idx_mism {A} (f : A -> N -> list (N * N * N)) (l : list A) (i : N) : li
   | x :: r => f x i ++ idx_mism f r (i + 1)%N
   end.
 
+(* ---------- kind 11..14: histories of requests through one driver instance;
+   j = 100 * (position of the request in the history) + (index of the header name) *)
+Record hreq := mkHR {
+  hr_headers : list (bytes * hval); hr_cookies : cookies; hr_ua : bytes;   (* the request's own parameters *)
+  ho_headers : list (list bytes); ho_cookies : cookies; ho_ua : bytes; ho_requests : N }.
+Record histcase := mkHist {
+  hd_dopts : list dopt; hd_cookies : cookies; hd_ua : bytes; hd_names : list bytes; hd_reqs : list hreq }.
+
+Fixpoint hh_mism (exp obs : list (list bytes)) (i j : N) : list (N * N * N) :=
+  match exp, obs with
+  | e :: exp', o :: obs' => (if bl_eqb o e then [] else [(11, i, j)%N]) ++ hh_mism exp' obs' i (j + 1)%N
+  | [], [] => []
+  | _, _ => [(99, i, j)%N]
+  end.
+
+Fixpoint hreqs_mism (exp : list sent) (reqs : list hreq) (i k : N) : list (N * N * N) :=
+  match exp, reqs with
+  | (eh, ec, eu) :: exp', r :: reqs' =>
+      hh_mism eh (ho_headers r) i (100 * k)%N ++
+      (if ck_eqb (ho_cookies r) (sort_ck ec) then [] else [(12, i, 100 * k)%N]) ++
+      (if bytes_eqb (ho_ua r) eu then [] else [(13, i, 100 * k)%N]) ++
+      (if (ho_requests r =? 1)%N then [] else [(14, i, 100 * k)%N]) ++
+      hreqs_mism exp' reqs' i (k + 1)%N
+  | [], [] => []
+  | _, _ => [(99, i, 100 * k)%N]
+  end.
+
+Definition hist_mism (c : histcase) (i : N) : list (N * N * N) :=
+  hreqs_mism
+    (history_spec (hd_names c) (mkDrv (cfg_of_dopts (hd_dopts c)) (hd_cookies c) (hd_ua c))
+       (map (fun r => mkPar (cfg_of_query (hr_headers r)) (hr_cookies r) (hr_ua r)) (hd_reqs c)))
+    (hd_reqs c) i 0%N.
+
 (* rbase = index of the first request case of this file *)
-Definition mismatches (rbase : N) (R : list reqcase) (S : list stcase) (P : list respcase) (C : list cancase) : list (N * N * N) :=
-  idx_mism req_mism R rbase ++ idx_mism st_mism S 0%N ++ idx_mism resp_mism P 0%N ++ idx_mism can_mism C 0%N.
+Definition mismatches (rbase : N) (R : list reqcase) (S : list stcase) (P : list respcase) (C : list cancase)
+    (H : list histcase) : list (N * N * N) :=
+  idx_mism req_mism R rbase ++ idx_mism st_mism S 0%N ++ idx_mism resp_mism P 0%N ++ idx_mism can_mism C 0%N ++
+  idx_mism hist_mism H 0%N.
 
 (* short constructors for the case files *)
 Fixpoint gp (s : string) : list gtok :=
